@@ -29,10 +29,10 @@
 /* memory orders (tokens of the os_atomic_* macros)                     */
 enum {
 	VMO_relaxed = 0, VMO_consume = 1, VMO_acquire = 2, VMO_release = 3,
-	VMO_acq_rel = 4, VMO_seq_cst = 5, VMO_ordered = 5, VMO_dependency = 2,
+	VMO_acq_rel = 4, VMO_seq_cst = 5, VMO_ordered = 5, VMO_dependency = 6,
 };
 #define VMO_IS_REL(m) ((m) == VMO_release || (m) == VMO_acq_rel || (m) == VMO_seq_cst)
-#define VMO_IS_ACQ(m) ((m) == VMO_acquire || (m) == VMO_acq_rel || (m) == VMO_seq_cst)
+#define VMO_IS_ACQ(m) ((m) == VMO_acquire || (m) == VMO_acq_rel || (m) == VMO_seq_cst || (m) == VMO_dependency)
 /* kept for code that names them directly */
 #define memory_order_ordered    memory_order_seq_cst
 #define memory_order_dependency memory_order_acquire
@@ -68,6 +68,7 @@ extern _Bool __verif_crashed;       /* a crash path (__builtin_trap) was entered
 extern _Bool __verif_crash_is_bug;  /* harness: inputs are valid, crash must be unreachable */
 extern unsigned long long __verif_last_load;     /* value returned by the most recent atomic load */
 extern const volatile void *__verif_last_load_p; /* ... and its location */
+extern const volatile void *__verif_ptrloc; extern void *__verif_ptrobj;
 
 #define VERIF_GHOST  __verif_n, __CPROVER_object_whole(__verif_log), __verif_crashed, __verif_last_load, __verif_last_load_p
 #define LOGK(i) (__verif_log[i].kind)
@@ -127,9 +128,9 @@ static inline void __verif_event(int kind, int mo, const volatile void *p,
 #ifndef __VERIF_GUARANTEE
 #define __VERIF_GUARANTEE(p, ov, nv, mo) 1
 #endif
-#define __verif_commit(p, ov, nv, mo) do { \
+#define __verif_commit(p, ov, nv, mo) ({ \
 		VERIF_ASSERT(guarantee_at_every_commit, __VERIF_GUARANTEE((p), (unsigned long long)(ov), (unsigned long long)(nv), (mo))); \
-		__verif_event(EV_COMMIT, (mo), (p), (unsigned long long)(ov), (unsigned long long)(nv)); } while (0)
+		__verif_event(EV_COMMIT, (mo), (p), (unsigned long long)(ov), (unsigned long long)(nv)); })
 
 static inline void __verif_trap(void)
 {
@@ -151,8 +152,14 @@ static inline void __verif_trap(void)
 #ifdef VERIF_SEQ
 #define __VERIF_LOADVAL(p) ((_os_atomic_basetypeof(p))*(p))
 #else
+/* pointer-valued shared location (e.g. an MPSC tail): the harness may declare that it holds NULL
+ * or one valid node; the loaded value is then that object's pointer (a pointer forged from an
+ * integer has no object identity in CBMC) */
+#define __VERIF_PTRFIX(p, v) ((const volatile void *)(p) == __verif_ptrloc && __verif_ptrloc != 0 ? \
+		(((unsigned long long)(v) & 1) == 0 ? (__typeof__(v))0 : (__typeof__(v))__verif_ptrobj) : (v))
 #define __VERIF_LOADVAL(p) ({ \
 		_os_atomic_basetypeof(p) __vlv = (_os_atomic_basetypeof(p))__verif_nd(); \
+		__vlv = __VERIF_PTRFIX((p), __vlv); \
 		__CPROVER_assume(__VERIF_RELY((p), __vlv)); \
 		__verif_last_load = (unsigned long long)__vlv; __verif_last_load_p = (p); \
 		__vlv; })
@@ -160,7 +167,7 @@ static inline void __verif_trap(void)
 
 #define os_atomic_load(p, m) ({ \
 		_os_atomic_basetypeof(p) __vl = __VERIF_LOADVAL(p); \
-		if (VMO_##m != VMO_relaxed) __verif_event(EV_LOAD, VMO_##m, (p), (unsigned long long)__vl, 0); \
+		if (VMO_##m != VMO_relaxed && VMO_##m != VMO_dependency) __verif_event(EV_LOAD, VMO_##m, (p), (unsigned long long)__vl, 0); \
 		__vl; })
 #define os_atomic_store(p, v, m) ({ \
 		_os_atomic_basetypeof(p) __vsv = (v); \
@@ -211,7 +218,7 @@ static inline void __verif_trap(void)
 		os_atomic_load(os_atomic_force_dependency_on(p, e), relaxed)
 #define os_atomic_load_with_dependency_on2o(p, f, e) \
 		os_atomic_load_with_dependency_on(&(p)->f, e)
-#define os_atomic_thread_fence(m) do { if (VMO_##m != VMO_relaxed) __verif_event(EV_FENCE, VMO_##m, 0, 0, 0); } while (0)
+#define os_atomic_thread_fence(m) ({ if (VMO_##m != VMO_relaxed) __verif_event(EV_FENCE, VMO_##m, 0, 0, 0); })
 
 #define os_atomic_load2o(p, f, m)  os_atomic_load(&(p)->f, m)
 #define os_atomic_store2o(p, f, v, m) os_atomic_store(&(p)->f, (v), m)
@@ -308,7 +315,24 @@ static inline void __verif_trap(void)
 /* ------------------------------------------------------------------ */
 /* contract macros                                                      */
 #define VERIF_UNPAREN(...) __VA_ARGS__
-#ifndef VERIF_NATIVE
+#if defined(VERIF_PLAIN) && !defined(VERIF_NATIVE)
+/* plain mode (bounded stand-ins only): no DFCC instrumentation; the same clauses become
+ * assume (requires, before the call) / assert (ensures, after the call); frames are NOT checked */
+#define REQ(...) if (__verif_phase == 0) __CPROVER_assume(__VA_ARGS__);
+#define ENS(name, ...) if (__verif_phase == 1) __CPROVER_assert((__VA_ARGS__), "VA:" #name);
+#define ASG(...)
+#define VERIF_CONTRACT(ret, name, params, clauses) \
+	static void __verif_chk_##name(int __verif_phase, ret __CPROVER_return_value, VERIF_UNPAREN params) { clauses }
+#define VERIF_CONTRACT_VOID(name, params, clauses) \
+	static void __verif_chk_##name(int __verif_phase, VERIF_UNPAREN params) { clauses }
+#define VERIF_PRE_CALL(name, ...) __verif_chk_##name(0, __VA_ARGS__)
+#define VERIF_POST(name, ...) __verif_chk_##name(1, __VA_ARGS__)
+#define VERIF_POST_VOID(name, ...) __verif_chk_##name(1, __VA_ARGS__)
+#define VERIF_ASSERT(name, ...) __CPROVER_assert((__VA_ARGS__), "VA:" #name)
+#define VERIF_CANARY() __CPROVER_assert(0, "CANARY")
+#define VERIF_REACH(name, ...) __CPROVER_assert(!(__VA_ARGS__), "REACH:" #name)
+#elif !defined(VERIF_NATIVE)
+#define VERIF_PRE_CALL(name, ...) ((void)0)
 /* __VERIF_NAMED(name, e) is resolved by the extractor (records name -> k-th
  * ensures clause of the function, rewrites to (e)) */
 #define REQ(...) __CPROVER_requires(__VA_ARGS__)
@@ -335,7 +359,8 @@ static inline void __verif_trap(void)
 	static void __verif_post_##name(VERIF_UNPAREN params) { clauses }
 #define VERIF_POST(name, ...) __verif_post_##name(__VA_ARGS__)
 #define VERIF_POST_VOID(name, ...) __verif_post_##name(__VA_ARGS__)
-#define VERIF_ASSERT(name, ...) do { if (!(__VA_ARGS__)) __verif_native_fail("assert", #name); } while (0)
+#define VERIF_PRE_CALL(name, ...) ((void)0)
+#define VERIF_ASSERT(name, ...) ({ if (!(__VA_ARGS__)) __verif_native_fail("assert", #name); })
 #endif
 
 /* side-car loop contract for the k-th loop (for/while/do) of a repository function */
